@@ -31,6 +31,17 @@ func (vc *VC) sortForHeap(name string) (string, bool) {
 		return allocSort, true
 	case "Gh.iter.seen.Int":
 		return "(Array Int (Array Int Bool))", true
+	case "Gh.chan.sent":
+		return "(Array Int Int)", true
+	}
+	if strings.HasPrefix(name, "Gh.") {
+		// ghost fields: Gh.<Owner>.<name>
+		parts := strings.Split(name, ".")
+		if g := vc.eng.cs.Ghosts[parts[len(parts)-1]]; g != nil {
+			pe := &specEnv{vc: vc, pkg: vc.eng.pkgByPath(g.Pkg), where: "ghost " + g.Name}
+			srt, _ := pe.sortOfName(g.Typ)
+			return "(Array Int " + srt + ")", true
+		}
 	}
 	d, ok := vc.eng.heapDescs[name]
 	if !ok {
@@ -180,7 +191,14 @@ func (eng *Engine) instrEffects(ins ssa.Instruction, out map[string]bool, in *ss
 		}
 	case *ssa.Go:
 		// not followed
-	case *ssa.Send, *ssa.Select:
+	case *ssa.Send:
+		out["Gh.chan.sent"] = true
+	case *ssa.Select:
+		for _, st := range x.States {
+			if st.Dir == types.SendOnly {
+				out["Gh.chan.sent"] = true
+			}
+		}
 	}
 }
 
@@ -416,8 +434,15 @@ func (eng *Engine) contractEffects(ct *Contract, fn *ssa.Function, sig *types.Si
 	pkg := eng.pkgByPath(ct.Pkg)
 	names, ts := paramNamesTypes(ct, fn, sig)
 	if ct.Kind == "iface" {
-		names = append([]string{"recv"}, names...)
-		ts = append([]types.Type{nil}, ts...)
+		names = []string{"recv"}
+		ts = []types.Type{nil}
+		if sig.Recv() != nil {
+			ts[0] = sig.Recv().Type()
+		}
+		for i := 0; i < sig.Params().Len(); i++ {
+			names = append(names, sig.Params().At(i).Name())
+			ts = append(ts, sig.Params().At(i).Type())
+		}
 		if len(ct.ParamNames) > 0 {
 			for i, n := range ct.ParamNames {
 				if i < len(names) {
